@@ -249,6 +249,13 @@ let () =
               (* mnext walk: the number of bindings the iterator model of pairs visits *)
               let n = (match hm_for_pairs !hms with Ok (_, l) -> string_of_int (List.length l) | Trap t -> "TRAP " ^ trap_name t) in
               Some ("m" ^ n ^ hm_line () ^ " || m" ^ string_of_int (List.length !hspec) ^ hspec_line ())
+            end else if op = 19 then begin
+              (* the bindings the iterator model of pairs yields, in node order; the spec side in its own order *)
+              let yl l = Printf.sprintf "y%d#%d#%d" (List.length l)
+                  (List.fold_left (fun h (k, v) -> hmix (hmix h (zi k)) (zi v)) 0 l)
+                  (List.fold_left (fun u (k, v) -> (u + pmix (zi k) (zi v)) mod hm_mod) 0 l) in
+              let m = (match hm_for_pairs !hms with Ok (_, l) -> yl (List.map snd l) | Trap t -> "TRAP " ^ trap_name t) in
+              Some (m ^ hm_line () ^ " || " ^ yl !hspec ^ hspec_line ())
             end else if op = 14 then begin
               let lo = Int64.to_int a and hi = Int64.to_int b in
               let ks = List.init (max 0 (hi - lo + 1)) (fun i -> z_of_int (lo + i)) in
